@@ -61,13 +61,20 @@ def make_proc_emitter(FloatEmitter):
                                'signed_area_tri': ('F', 'signedAreaTri', ['V3', 'V3', 'V3', 'V3'])})
             self.deferred = set()
             self.ret_wrap = None     # how `return e` / the final value is wrapped
+            self.aux = []            # Lean definitions of helper functions met on the way
+            self.fn_lookup = None    # name -> (params tokens, body tokens) of a function of the same file(s)
 
         # ---------- expressions ----------
         def expr(self, e, env):
             k = e[0]
+            if k == 'path' and len(e[1]) == 2 and e[1][0] in ('Dimensionality', 'Self') and e[1][1] in DIMS and (e[1][0] == 'Dimensionality' or self.self_ty == 'Dim'):
+                return "Dim.%s" % e[1][1], 'Dim'
             if k == 'bin' and e[1] in ('==', '!='):
                 a, ta = self.expr(e[2], env)
                 b, tb = self.expr(e[3], env)
+                if ta == tb == 'Dim':
+                    t = "(decide (%s = %s))" % (a, b)
+                    return (t if e[1] == '==' else "(!%s)" % t), 'B'
                 if ta == tb == 'F':
                     t = "(Scalar.le %s %s && Scalar.le %s %s)" % (a, b, b, a)
                     return (t if e[1] == '==' else "(!%s)" % t), 'B'
@@ -79,6 +86,26 @@ def make_proc_emitter(FloatEmitter):
                 raise Unparsed("cast to %s" % e[2])
             if k == 'match':
                 s, ts = self.expr(e[1], env)
+                if ts == 'OptV3':
+                    arms = {}
+                    for pat, guard, body in e[2]:
+                        if guard is not None:
+                            raise Unparsed("match guard")
+                        if pat[0] == 'pctor' and pat[1] == ['Some'] and len(pat[2]) == 1 and pat[2][0][0] == 'pvar':
+                            arms['some'] = (pat[2][0][1], body)
+                        elif (pat[0] == 'pctor' and pat[1] == ['None'] and not pat[2]) or pat[0] == 'pwild':
+                            arms['none'] = (None, body)
+                        else:
+                            raise Unparsed("Option pattern")
+                    if set(arms) != {'some', 'none'}:
+                        raise Unparsed("match on Option arms")
+                    env2 = dict(env)
+                    env2[arms['some'][0]] = (arms['some'][0], 'V3')
+                    a, ta = self.value(arms['some'][1], env2)
+                    b, tb = self.value(arms['none'][1], dict(env))
+                    if ta != tb:
+                        raise Unparsed("match arms of different type")
+                    return "(match %s with\n    | some %s => %s\n    | none => %s)" % (s, arms['some'][0], a, b), ta
                 if ts != 'Dim':
                     raise Unparsed("match on %s" % ts)
                 arms = []
@@ -128,6 +155,34 @@ def make_proc_emitter(FloatEmitter):
                 if ty == 'A3':
                     return t, 'V3'
                 raise Unparsed("DVec3::from_array argument")
+            if (k == 'call' and e[1][0] == 'path' and e[1][1][-1] not in getattr(self, 'local_fns', {}) and e[1][1][-1] not in self.FUNCS
+                    and (len(e[1][1]) == 1 or (len(e[1][1]) == 2 and e[1][1][0] == 'Self')) and getattr(self, 'fn_lookup', None) is not None
+                    and e[1][1][-1][0].islower()):
+                # a call to a helper function of the same file: translate the helper (parameter types from the arguments)
+                name = e[1][1][-1]
+                got = self.fn_lookup(name)
+                if got is not None:
+                    hp, hb = got
+                    args = [self.expr(x, env) for x in e[2]]
+                    names = [nm for nm, _ in params_of(hp)]
+                    if len(names) != len(args) or 'self' in names:
+                        raise Unparsed("helper %s arity" % name)
+                    sub = type(self)(self.self_ty)
+                    sub.fn_lookup = self.fn_lookup
+                    sub.aux = self.aux
+                    sub.local_fns = dict(getattr(self, 'local_fns', {}))
+                    henv = {nm: (nm, a[1]) for nm, a in zip(names, args)}
+                    hblk = parse_body(hb)
+                    t, ty = sub.block_value(hblk, henv)
+                    # inlined at the call site (`let` per parameter), so that the obligations need not know the helper's name
+                    binds = ''.join("let %s := %s; " % (nm, a[0]) for nm, a in zip(names, args))
+                    return "(%s%s)" % (binds, t), ty
+            if k == 'call' and e[1][0] == 'path' and e[1][1][-1] in getattr(self, 'local_fns', {}) and (len(e[1][1]) == 1 or e[1][1][0] == 'Self'):
+                rty, name, argtys = self.local_fns[e[1][1][-1]]
+                args = [self.expr(x, env) for x in e[2]]
+                if [a[1] for a in args] != argtys:
+                    raise Unparsed("arguments of %s" % e[1][1][-1])
+                return "(%s %s)" % (name, ' '.join(a[0] for a in args)), rty
             if k == 'call' and e[1][0] == 'path' and len(e[1][1]) == 1 and e[1][1][0] in getattr(self, 'local_fns', {}):
                 rty, name, argtys = self.local_fns[e[1][1][0]]
                 args = [self.expr(x, env) for x in e[2]]
@@ -161,6 +216,9 @@ def make_proc_emitter(FloatEmitter):
                     raise Unparsed("if branches of different type")
                 return "(if %s then %s else %s)" % (c, a, b), ta
             return FloatEmitter.expr(self, e, env)
+
+        def value(self, e, env):
+            return self.block_value(e, env) if e[0] == 'block' else self.expr(e, env)
 
         def block_value(self, blk, env):
             if blk[0] != 'block' or blk[2] is None:
@@ -289,6 +347,29 @@ def make_proc_emitter(FloatEmitter):
                             lines.append("%s  pure ()" % ind)
                     else:
                         raise Unparsed("if-let statement on %s" % ts)
+                elif s[0] == 'expr' and s[1][0] == 'match' and self.expr(s[1][1], env)[1] == 'OptV3':
+                    # `match opt { Some(x) => {..} None => {..} }` as a statement: same as if-let / else
+                    arms = {}
+                    for pat, guard, body in s[1][2]:
+                        if guard is not None:
+                            raise Unparsed("match guard")
+                        if pat[0] == 'pctor' and pat[1] == ['Some'] and len(pat[2]) == 1 and pat[2][0][0] == 'pvar':
+                            arms['some'] = (pat, body)
+                        elif (pat[0] == 'pctor' and pat[1] == ['None'] and not pat[2]) or pat[0] == 'pwild':
+                            arms['none'] = (pat, body)
+                        else:
+                            raise Unparsed("Option pattern")
+                    if set(arms) != {'some', 'none'}:
+                        raise Unparsed("match on Option arms")
+                    def as_block(b):
+                        if b[0] == 'block':
+                            return b
+                        if b[0] == 'assignexpr':
+                            return ('block', [('assign', b[1], b[2], b[3])], None)
+                        if b[0] == 'tuple' and not b[1]:
+                            return ('block', [], None)
+                        raise Unparsed("match arm form %s" % b[0])
+                    self.stmts([('expr', ('iflet', arms['some'][0], s[1][1], as_block(arms['some'][1]), as_block(arms['none'][1])))], env, lines, ind)
                 elif s[0] == 'expr' and s[1][0] == 'match':
                     sc, ts = self.expr(s[1][1], env)
                     if ts != 'Dim':
